@@ -50,6 +50,16 @@ pub struct Pending {
     pub go: oneshot::Sender<()>,
 }
 
+/// Messages from gated clients / sync tasks to the replayer.
+pub enum GateMsg {
+    /// A request is waiting for its permit.
+    Waiting(Pending),
+    /// The server finished handling the request.
+    Served(String, &'static str),
+    /// The sync call of a device returned.
+    Finished(String, String),
+}
+
 /// In-process sync client (the server side of every request mirrors
 /// `sos_server::handlers::account::handlers::*`).
 pub struct InProcClient {
@@ -58,7 +68,7 @@ pub struct InProcClient {
     pub account_id: AccountId,
     pub backend: ServerBackend,
     /// When set every request announces itself and waits for a permit.
-    pub gate: Option<mpsc::UnboundedSender<Pending>>,
+    pub gate: Option<mpsc::UnboundedSender<GateMsg>>,
     /// Kinds of the requests made (route of the sync call).
     pub route: Arc<std::sync::Mutex<Vec<&'static str>>>,
 }
@@ -72,12 +82,18 @@ impl InProcClient {
         self.route.lock().unwrap().push(kind);
         if let Some(gate) = &self.gate {
             let (tx, rx) = oneshot::channel();
-            let _ = gate.send(Pending {
+            let _ = gate.send(GateMsg::Waiting(Pending {
                 device: self.device.clone(),
                 kind,
                 go: tx,
-            });
+            }));
             let _ = rx.await;
+        }
+    }
+
+    fn served(&self, kind: &'static str) {
+        if let Some(gate) = &self.gate {
+            let _ = gate.send(GateMsg::Served(self.device.clone(), kind));
         }
     }
 
@@ -148,6 +164,7 @@ impl SyncClient for InProcClient {
         let account = self.server_account().await?;
         let account = account.read().await;
         let status = account.sync_status().await.map_err(perr)?;
+        self.served("status");
         let bytes = status.encode().await?;
         Ok(SyncStatus::decode(bytes::Bytes::from(bytes)).await?)
     }
@@ -166,6 +183,7 @@ impl SyncClient for InProcClient {
             .await
             .map_err(perr)?
         };
+        self.served("sync");
         let bytes = packet.encode().await?;
         Ok(SyncPacket::decode(bytes::Bytes::from(bytes)).await?)
     }
@@ -183,6 +201,7 @@ impl SyncClient for InProcClient {
             server_helpers::event_scan::<_, sos_server::Error>(&req, &*reader)
                 .await
                 .map_err(perr)?;
+        self.served("scan");
         let bytes = response.encode().await?;
         Ok(ScanResponse::decode(bytes::Bytes::from(bytes)).await?)
     }
@@ -198,6 +217,7 @@ impl SyncClient for InProcClient {
             server_helpers::event_diff::<_, sos_server::Error>(&req, &*reader)
                 .await
                 .map_err(perr)?;
+        self.served("diff");
         let bytes = response.encode().await?;
         Ok(DiffResponse::decode(bytes::Bytes::from(bytes)).await?)
     }
@@ -213,6 +233,7 @@ impl SyncClient for InProcClient {
                 .await
                 .map_err(perr)?
         };
+        self.served("patch");
         let bytes = response.encode().await?;
         Ok(PatchResponse::decode(bytes::Bytes::from(bytes)).await?)
     }
@@ -267,6 +288,9 @@ pub struct SyncDevice {
     pub root: PathBuf,
     pub backend: &'static str,
     pub account: Arc<Mutex<LocalAccount>>,
+    /// independent handle on the device's storage: the logs can be read
+    /// while a sync call holds the account lock
+    pub read_target: BackendTarget,
     pub edits: u32,
 }
 
@@ -393,11 +417,16 @@ impl SyncWorld {
             let key: AccessKey = password.clone().into();
             account.sign_in(&key).await?;
             account.initialize_search_index().await?;
+            let read_target =
+                crate::account_world::reopen_target(&root, client_backend)
+                    .await?
+                    .with_account_id(&account_id);
             devices.push(SyncDevice {
                 name: n.clone(),
                 root,
                 backend: client_backend,
                 account: Arc::new(Mutex::new(account)),
+                read_target,
                 edits: 0,
             });
         }
@@ -455,10 +484,13 @@ impl SyncWorld {
     }
 
     pub async fn device_records(&self, i: usize) -> Result<Vec<EventRecord>> {
-        let account = self.devices[i].account.lock().await;
-        let log = account.folder_log(&self.folder).await?;
-        let log = log.read().await;
-        records_of(&*log).await
+        let log = sos_backend::FolderEventLog::new_folder(
+            self.devices[i].read_target.clone(),
+            &self.account_id,
+            &self.folder,
+        )
+        .await?;
+        records_of(&log).await
     }
 
     pub fn project(&self, recs: &[EventRecord]) -> Value {
@@ -544,7 +576,7 @@ impl SyncWorld {
         Ok(term)
     }
 
-    pub fn remote(&self, i: usize, gate: Option<mpsc::UnboundedSender<Pending>>) -> VerifRemote {
+    pub fn remote(&self, i: usize, gate: Option<mpsc::UnboundedSender<GateMsg>>) -> VerifRemote {
         let (queue, _) = tokio::sync::broadcast::channel(8);
         VerifRemote {
             account: self.devices[i].account.clone(),
@@ -876,5 +908,300 @@ pub async fn run_path(
         let _ = std::fs::remove_dir_all(&dir);
     }
     let _ = (UtcDateTime::default(), CommitHash::default());
+    Ok(())
+}
+
+
+/// Replay one CONCURRENT behaviour: steps are at request granularity and
+/// interleave the sync calls of several devices (C09).  Each device's sync
+/// call runs as a task whose requests wait at a gate; the behaviour decides
+/// whose request reaches the server next, the real client code decides
+/// what that request is.
+pub async fn run_concurrent_path(
+    path: &Value,
+    scratch: &Path,
+    out: &mut Summary,
+    _prop: &str,
+    known: &[String],
+) -> Result<()> {
+    use std::collections::HashMap;
+    let steps = path["steps"].as_array().cloned().unwrap_or_default();
+    let names: Vec<String> = path["devices"]
+        .as_array()
+        .unwrap()
+        .iter()
+        .map(|v| v.as_str().unwrap().to_string())
+        .collect();
+    let cb: &'static str = if path["client_backend"] == "db" { "db" } else { "fs" };
+    let sb = path["server_backend"].as_str().unwrap_or("fs").to_string();
+    let dir = scratch.join(format!("c{}", out.evaluated));
+    let _ = std::fs::remove_dir_all(&dir);
+    std::fs::create_dir_all(&dir)?;
+    let mut world = SyncWorld::new(&dir, &names, cb, &sb).await?;
+    out.evaluated += 1;
+    let (tx, mut rx) = mpsc::unbounded_channel::<GateMsg>();
+    let mut waiting: HashMap<String, Pending> = HashMap::new();
+    let mut running: HashMap<String, bool> = HashMap::new();
+    let mut finished: HashMap<String, String> = HashMap::new();
+    let mut devs_seen: Vec<String> = Vec::new();
+    let mut accepted_ledger: Vec<Value> = Vec::new();
+    let mut failed = false;
+    let mut interleaved = false;
+    let mut handles: Vec<tokio::task::JoinHandle<()>> = Vec::new();
+
+    // wait until device d is parked at the gate or its call has returned
+    macro_rules! settle {
+        ($d:expr) => {{
+            let d: String = $d.clone();
+            loop {
+                if waiting.contains_key(&d) || !running.get(&d).copied().unwrap_or(false) {
+                    break;
+                }
+                match tokio::time::timeout(std::time::Duration::from_secs(60), rx.recv()).await {
+                    Ok(Some(GateMsg::Waiting(p))) => {
+                        waiting.insert(p.device.clone(), p);
+                    }
+                    Ok(Some(GateMsg::Served(_, _))) => {}
+                    Ok(Some(GateMsg::Finished(dev, r))) => {
+                        running.insert(dev.clone(), false);
+                        finished.insert(dev, r);
+                    }
+                    _ => {
+                        return Err(anyhow!("device {d} neither issues a request nor returns (hang)"));
+                    }
+                }
+            }
+        }};
+    }
+
+    for (n, step) in steps.iter().enumerate() {
+        let act = step["act"].as_str().unwrap_or("");
+        let args = &step["args"];
+        let detail = json!({"path": path, "step": n});
+        for d in step["dev"].as_array().cloned().unwrap_or_default() {
+            if let Some(d) = d.as_str() {
+                if !devs_seen.iter().any(|x| x == d) {
+                    devs_seen.push(d.to_string());
+                }
+            }
+        }
+        let d = args[0].as_str().unwrap_or("").to_string();
+        if std::env::var("VERIF_DEBUG").is_ok() {
+            eprintln!("[c09] step {n} {act} {args} running={running:?} waiting={:?}", waiting.keys().collect::<Vec<_>>());
+        }
+        if running.values().filter(|v| **v).count() > 1 {
+            interleaved = true;
+        }
+        match act {
+            "Edit" => {
+                let i = world.device(&d)?;
+                if let Err(e) = world
+                    .edit(i, args[1].as_str().unwrap(), args[2].as_str().unwrap_or(""),
+                          args[3].as_i64().unwrap_or(0))
+                    .await
+                {
+                    out.violation(format!("step {n} Edit {args} failed on the device: {e}"), detail.clone());
+                    failed = true;
+                }
+            }
+            "Quiesce" => {}
+            "ReqStatus" | "ReqSync" | "ReqScan" | "ReqDiff" | "ReqPatch" | "ForceMerge" => {
+                if act == "ReqStatus" {
+                    // start the sync call of d
+                    let i = world.device(&d)?;
+                    let remote = world.remote(i, Some(tx.clone()));
+                    let txf = tx.clone();
+                    let dn = d.clone();
+                    running.insert(d.clone(), true);
+                    finished.remove(&d);
+                    let handle = tokio::spawn(async move {
+                        let r = remote.execute_sync(&Default::default()).await;
+                        let _ = txf.send(GateMsg::Finished(
+                            dn,
+                            match r {
+                                Ok(_) => "Ok".to_string(),
+                                Err(e) => format!("Err:{e}"),
+                            },
+                        ));
+                    });
+                    handles.push(handle);
+                }
+                settle!(d);
+                let expect: Option<&str> = match act {
+                    "ReqStatus" => Some("status"),
+                    "ReqSync" => {
+                        if step["to"]["pc"][&d] == "reply" { Some("sync") } else { None }
+                    }
+                    "ReqScan" => Some("scan"),
+                    "ReqDiff" => Some("diff"),
+                    "ReqPatch" => Some("patch"),
+                    _ => Some("diffall"),
+                };
+                match (expect, waiting.remove(&d)) {
+                    (Some(k), Some(p)) if p.kind == k => {
+                        let _ = p.go.send(());
+                        // wait until the server handled it
+                        loop {
+                            match tokio::time::timeout(std::time::Duration::from_secs(60), rx.recv()).await {
+                                Ok(Some(GateMsg::Served(dev, _))) if dev == d => break,
+                                Ok(Some(GateMsg::Served(_, _))) => {}
+                                Ok(Some(GateMsg::Waiting(p))) => {
+                                    waiting.insert(p.device.clone(), p);
+                                }
+                                Ok(Some(GateMsg::Finished(dev, r))) => {
+                                    running.insert(dev.clone(), false);
+                                    let done = dev == d;
+                                    finished.insert(dev, r);
+                                    if done {
+                                        break;
+                                    }
+                                }
+                                _ => return Err(anyhow!("request {k} of {d} was not served (hang)")),
+                            }
+                        }
+                    }
+                    (None, None) => {}
+                    (e, got) => {
+                        out.violation(
+                            format!(
+                                "step {n} {act} {args}: the device {} where the spec expects {:?}",
+                                match &got {
+                                    Some(p) => format!("issues a {} request", p.kind),
+                                    None => format!("returned {:?}", finished.get(&d)),
+                                },
+                                e
+                            ),
+                            detail.clone(),
+                        );
+                        failed = true;
+                    }
+                }
+            }
+            "MergeReply" | "RewindLocal" => {
+                settle!(d);
+            }
+            _ => return Err(anyhow!("unknown step {act}")),
+        }
+        out.steps += 1;
+        if failed {
+            break;
+        }
+        // a call that ended: compare its result
+        if step["to"]["pc"][&d] == "idle" && act != "Edit" && act != "Quiesce" {
+            settle!(d);
+            let want = step["res"][&d].as_str().unwrap_or("Ok");
+            let got = finished.get(&d).cloned().unwrap_or_else(|| "still running".into());
+            let class = if got == "Ok" { "Ok" } else if got.starts_with("Err") { "Err" } else { "?" };
+            if class != want {
+                out.violation(
+                    format!("step {n} {act} {args}: sync call of {d} ended with {got}, spec {want}"),
+                    detail.clone(),
+                );
+                failed = true;
+                break;
+            }
+        }
+        // state comparison: the server always; a device when it is parked
+        // where the spec has it (before a request or idle)
+        let (logs, srv) = world.state().await?;
+        let mut diverged = srv != step["to"]["srv"];
+        for name in &names {
+            let pc = step["to"]["pc"][name].as_str().unwrap_or("idle");
+            if ["idle", "status", "scan", "diff", "push"].contains(&pc) {
+                if pc != "idle" {
+                    settle!(name);
+                }
+                let (l2, _) = world.state().await?;
+                if l2[name] != step["to"]["log"][name] {
+                    diverged = true;
+                }
+            }
+        }
+        if diverged {
+            out.violation(
+                format!(
+                    "state after step {n} {act} {args} differs: real log={} srv={} spec log={} srv={} pc={}",
+                    logs, srv, step["to"]["log"], step["to"]["srv"], step["to"]["pc"]
+                ),
+                json!({"path": path, "step": n}),
+            );
+            failed = true;
+            break;
+        }
+        // C09 direct predicates on the real server log
+        let srv_terms = evs(&srv);
+        for e in srv_terms.iter().skip(2) {
+            if !accepted_ledger.iter().any(|x| x == e) {
+                accepted_ledger.push(e.clone());
+            }
+        }
+        let mut dropped = Vec::new();
+        for a in &accepted_ledger {
+            if !srv_terms.iter().any(|x| x == a) {
+                dropped.push(a.clone());
+            }
+        }
+        if !dropped.is_empty() {
+            let attributable = !devs_seen.is_empty()
+                && devs_seen.iter().all(|x| known.iter().any(|k| k == x));
+            let msg = format!(
+                "events accepted by the server were dropped from its log by step {n} {act} {args}: {}",
+                Value::Array(dropped.clone())
+            );
+            if attributable {
+                for dv in &devs_seen {
+                    out.known(dv, msg.clone());
+                }
+                accepted_ledger.retain(|x| !dropped.contains(x));
+            } else {
+                out.violation(msg, json!({"path": path, "step": n}));
+                failed = true;
+                break;
+            }
+        }
+    }
+    // let unfinished calls run to completion so that nothing is left blocked
+    for (_, p) in waiting.drain() {
+        let _ = p.go.send(());
+    }
+    let deadline = tokio::time::Instant::now() + std::time::Duration::from_secs(20);
+    while running.values().any(|v| *v) && tokio::time::Instant::now() < deadline {
+        match tokio::time::timeout(std::time::Duration::from_secs(5), rx.recv()).await {
+            Ok(Some(GateMsg::Waiting(p))) => {
+                let _ = p.go.send(());
+            }
+            Ok(Some(GateMsg::Finished(dev, _))) => {
+                running.insert(dev, false);
+            }
+            Ok(Some(_)) => {}
+            _ => break,
+        }
+    }
+    for h in handles {
+        h.abort();
+        let _ = h.await;
+    }
+    if interleaved {
+        let key: Vec<String> = steps
+            .iter()
+            .map(|s| format!("{}{}", s["act"].as_str().unwrap_or(""), s["args"]))
+            .collect();
+        out.nontrivial_keys.push(crate::short_hash(&key.join(";")));
+    }
+    if out.samples.is_empty() {
+        let short: Vec<Value> = steps.iter().map(|s| json!([s["act"], s["args"]])).collect();
+        out.sample(json!({"steps": short}));
+    }
+    for d in &world.devices {
+        if let Ok(mut account) =
+            tokio::time::timeout(std::time::Duration::from_secs(5), d.account.lock()).await
+        {
+            let _ = account.sign_out().await;
+        }
+    }
+    drop(world);
+    if !failed {
+        let _ = std::fs::remove_dir_all(&dir);
+    }
     Ok(())
 }
